@@ -46,9 +46,20 @@ type Result struct {
 	Err    error
 	Panic  interface{}
 	Prompt int
+	// Marks[i] = number of UIOut entries when interactive line i was requested: UIOut[Marks[i]:Marks[i+1]] is what
+	// line i printed through the UI
+	Marks []int
 }
 
 func (r *Result) File(name string) string { return string(r.Files[name]) }
+
+// UIOf returns what interactive line i printed through the UI.
+func (r *Result) UIOf(i int) string {
+	if i+1 >= len(r.Marks) {
+		return ""
+	}
+	return strings.Join(r.UIOut[r.Marks[i]:r.Marks[i+1]], "\n")
+}
 
 var (
 	mu       sync.Mutex // the driver's option store is process-global: one PProf call at a time
@@ -253,6 +264,7 @@ func (u *ui) ReadLine(prompt string) (string, error) {
 	i := u.next
 	u.next++
 	u.res.Prompt = u.next
+	u.res.Marks = append(u.res.Marks, len(u.res.UIOut))
 	u.mu.Unlock()
 	if u.o.OnPrompt != nil {
 		u.o.OnPrompt(i)
